@@ -740,7 +740,7 @@ def check_fast_mode_precondition(r, repo, rule="R12.6"):
             if not acc:
                 continue
             n += 1
-            r.ob(rule, f"{AP}::{fname} fast sum `{norm_src(c)[:70]}` has its operand order established", bool(guards),
+            r.ob(rule, f"{AP}::{fname} fast sum with an accumulated operand has its operand order established", bool(guards),
                  f"in fast mode `{norm_src(c)[:90]}` is a Fast2Sum whose operand `{acc[0].id}` is a sum accumulated over the rest of the list; its magnitude is not bounded by the "
                  "other operand for decreasing (let alone arbitrary) input, and nothing in the function compares magnitudes: float16 renormalize([-0.11993, -0.1094, -0.04047], "
                  "fast=True) returns [-0.2698, 6.104e-05], whose sum differs from the input's by 2^-14", loc(AP, c))
